@@ -2,6 +2,7 @@ package rules
 
 import (
 	"go/constant"
+	"go/token"
 	"go/types"
 	"strings"
 
@@ -125,3 +126,14 @@ func reaches(from, to int, fr *sym.Frame) bool {
 	}
 	return false
 }
+
+type ssaPhi = ssa.Phi
+
+const (
+	tokEQL = token.EQL
+	tokLEQ = token.LEQ
+	tokLSS = token.LSS
+	tokADD = token.ADD
+	tokSUB = token.SUB
+	tokAND = token.AND
+)
